@@ -1,6 +1,7 @@
 import NmlVerif.Model.Factory
 import NmlVerif.Gen.Members
 import NmlVerif.Gen.Factory
+import NmlVerif.Gen.AddImpl
 import NmlVerif.DrvCommon
 import Std.Data.HashMap
 /-!
@@ -160,6 +161,9 @@ def addTag (r : AddOutcome) : String :=
   | .error (.inr .invalid) => "err:invalid"     -- the same ValueError("Validation failed…"), raised for the parent
   | .error (.inr e) => "err:add:" ++ addErrTag e
 
+/-- the shape of `__add` in the tree under test (read off the source by C10's translator, `Gen/AddImpl.lean`) -/
+def shape : PlaceShape := ⟨Gen.AddImpl.dupTest, Gen.AddImpl.warnFmt, Gen.AddImpl.bookKeeping.map intern⟩
+
 def handle (j : Json) : Json :=
   let T := Gen.Members.table
   let C := Gen.Factory.ctorTable
@@ -199,7 +203,7 @@ def handle (j : Json) : Json :=
             (getNat c "oid"))) :: acc.2)
         | some (Json.str "addt"), some c =>
           let hint := (getStr? c "hint").bind (fun s => if s.isEmpty then none else some (intern s))
-          (acc.1, Json.str (addTag (Gen.Factory.addByType T C env (fun _ => getBool c "sok") acc.1 (getBool c "flag")
+          (acc.1, Json.str (addTag (Gen.Factory.addByType shape T C env (fun _ => getBool c "sok") acc.1 (getBool c "flag")
             (parseObj (getObj c "parent")) (parseT c) (parseKw c) hint (getBool c "force") (getNat c "oid"))) :: acc.2)
         | _, _ => acc
       | _ => acc
@@ -213,7 +217,7 @@ def handle (j : Json) : Json :=
       let oid := getNat c "oid"
       let env := mkEnv [c] (fun o => if o.oid == oid then getBool c "cv" else getBool c "pv")
       let hint := (getStr? c "hint").bind (fun s => if s.isEmpty then none else some (intern s))
-      let r := Gen.Factory.addByType T C env (fun _ => getBool c "sok") (getBool c "en") (getBool c "flag") parent t kw hint
+      let r := Gen.Factory.addByType shape T C env (fun _ => getBool c "sok") (getBool c "en") (getBool c "flag") parent t kw hint
                 (getBool c "force") oid
       let out := Json.mkObj [("r", addTag r), ("w", warnJ r.warn),
         ("ret", match r.result with | .ok o => Json.num o.oid | .error _ => .null),
@@ -225,7 +229,8 @@ def handle (j : Json) : Json :=
     Json.mkObj [("sites", Json.arr (Gen.Factory.helperSites.map (fun s => Json.arr #[extern s.cls, s.method, calleeJ s.callee,
       (match s.typ with | some t => Json.str (extern t) | none => .null), flagJ s.flag,
       Json.arr (s.kwKeys.map (fun k => Json.str (extern k))).toArray, s.passKw])).toArray),
-      ("initial", Gen.Factory.initialSwitch)]
+      ("initial", Gen.Factory.initialSwitch),
+      ("place", Json.arr #[toString (repr Gen.AddImpl.dupTest), toString (repr Gen.AddImpl.warnFmt)])]
   | _ => Json.mkObj [("error", "unknown op")]
 
 def main : IO Unit := loop handle
